@@ -38,6 +38,7 @@ from forml.io.dsl import parser as parsmod
 class Req(dsl.Schema):
     token = dsl.Field(dsl.Integer())
     delay = dsl.Field(dsl.Integer())
+    bad = dsl.Field(dsl.Integer())
 
 
 class Feed(io.Feed[str, str]):
@@ -78,7 +79,8 @@ def as_tuple(data):
     return tuple(tuple(r) for r in data)
 
 
-INSTANCE = project.Source.query(c16_support.Req.select(c16_support.Req.token, c16_support.Req.delay)) >> as_tuple()
+INSTANCE = project.Source.query(
+    c16_support.Req.select(c16_support.Req.token, c16_support.Req.delay, c16_support.Req.bad)) >> as_tuple()
 project.setup(INSTANCE)
 '''
 
@@ -86,8 +88,12 @@ PIPELINE = r'''
 import os
 import socket
 import time
+import forml
 from forml import project
-from forml.pipeline import wrap
+from forml.pipeline import payload, wrap
+
+SHAPE = __SHAPE__   # one letter per parallel mapper branch: 's' stateful, 'l' stateless; a single branch = linear pipeline
+PIDMARK = 7 * 10 ** 12
 
 
 def _gate(token):
@@ -102,6 +108,28 @@ def _gate(token):
         conn.close()
 
 
+def _head(rows):
+    """everything before the fan-out: waits for the largest delay of the request (or, in a controlled session, at the
+    gate); a negative delay is the non-platform failure"""
+    rows = [tuple(int(v) for v in r) for r in rows]
+    if os.environ.get('C16_GATE') and len(rows):
+        _gate(rows[0][0])
+    if any(r[1] < 0 for r in rows):
+        raise ValueError('boom')
+    if not os.environ.get('C16_GATE'):
+        time.sleep(max((r[1] for r in rows), default=0) / 1000.0)
+    return rows
+
+
+def _branch(k, state, rows):
+    """mapper of branch k: value = k * 10^9 + state * 10^6 + token * 10 + row index (state 0 = stateless); a row whose
+    `bad` column names this branch is refused with a platform-level error raised inside the pipeline"""
+    for r in rows:
+        if int(r[2]) == k + 1:
+            raise forml.InvalidError(f'C16 refused token={int(r[0])} branch={k} pid={os.getpid()}')
+    return [k * 10 ** 9 + int(state) * 10 ** 6 + int(r[0]) * 10 + i for i, r in enumerate(rows)]
+
+
 @wrap.Actor.train
 def model(state, features, labels):
     return state
@@ -110,18 +138,72 @@ def model(state, features, labels):
 @wrap.Operator.apply
 @model.apply
 def model(state, rows):
-    """value = state * 10^6 + token * 10 + row index; sleeps for the largest delay of the request (or, in a
-    controlled session, waits at the gate); a negative delay is the non-platform failure."""
-    if os.environ.get('C16_GATE') and len(rows):
-        _gate(int(rows[0][0]))
-    if any(int(r[1]) < 0 for r in rows):
-        raise ValueError('boom')
-    if not os.environ.get('C16_GATE'):
-        time.sleep(max((int(r[1]) for r in rows), default=0) / 1000.0)
-    return [int(state) * 1000000 + int(r[0]) * 10 + i for i, r in enumerate(rows)]
+    """the linear pipeline: head and the only mapper in one stateful actor"""
+    return _branch(0, state, _head(rows)) + [PIDMARK + os.getpid()]
 
 
-INSTANCE = model()
+@wrap.Operator.mapper
+@wrap.Actor.apply
+def head(rows):
+    return _head(rows)
+
+
+@wrap.Actor.train
+def s0(state, features, labels):
+    return state
+
+
+@s0.apply
+def s0(state, rows):
+    return _branch(0, state, rows)
+
+
+@wrap.Actor.train
+def s1(state, features, labels):
+    return state
+
+
+@s1.apply
+def s1(state, rows):
+    return _branch(1, state, rows)
+
+
+@wrap.Actor.train
+def s2(state, features, labels):
+    return state
+
+
+@s2.apply
+def s2(state, rows):
+    return _branch(2, state, rows)
+
+
+@wrap.Actor.apply
+def l0(rows):
+    return _branch(0, 0, rows)
+
+
+@wrap.Actor.apply
+def l1(rows):
+    return _branch(1, 0, rows)
+
+
+@wrap.Actor.apply
+def l2(rows):
+    return _branch(2, 0, rows)
+
+
+@wrap.Actor.apply
+def merge(*branches):
+    return [v for b in branches for v in b] + [PIDMARK + os.getpid()]
+
+
+if len(SHAPE) <= 1:
+    INSTANCE = model()
+else:
+    MAPPERS = {'s': (s0, s1, s2), 'l': (l0, l1, l2)}
+    INSTANCE = head() >> payload.MapReduce(*(MAPPERS[kind][k].builder() for k, kind in enumerate(SHAPE)),
+                                           reducer=merge.builder())
 project.setup(INSTANCE)
 '''
 
@@ -158,13 +240,16 @@ def build(plan, root):
             f"NAME = '{prj['name']}'\nVERSION = '1'\nPACKAGE = 'c16_{prj['name']}'\nMODULES = {{}}\n")
         (mod / '__init__.py').write_text('')
         (mod / 'source.py').write_text(plan['source'])
-        (mod / 'pipeline.py').write_text(plan['pipeline'])
+        shape = prj.get('shape') or 's'
+        (mod / 'pipeline.py').write_text(plan['pipeline'].replace('__SHAPE__', repr(shape)))
         reg.push(prjmod.Package(pkg))
         for gen, state in enumerate(prj['states'], start=1):
-            sid = uuid.uuid4()
-            reg.write(prj['name'], '1', sid, cloudpickle.dumps(state))
+            sids = []
+            for _ in range(max(1, shape.count('s')) if len(shape) > 1 else 1):  # one state per stateful actor
+                sids.append(uuid.uuid4())
+                reg.write(prj['name'], '1', sids[-1], cloudpickle.dumps(state))
             tag = asset.Tag(training=asset.Tag.Training(datetime.datetime(2020, 1, gen), datetime.datetime(2019, 1, 2)),
-                            states=[sid])
+                            states=sids)
             reg.close(prj['name'], '1', gen, tag)
     descriptors = [application.Generic(a['name'], application.Explicit(a['project'], '1', a['generation']))
                    for a in plan['apps']]
@@ -200,6 +285,149 @@ def diagnose(engine):
     except Exception:  # pylint: disable=broad-except
         pass
     return out
+
+
+class Watchdog(threading.Thread):
+    """A plain thread (it works while the event-loop thread is blocked): when the session has not finished after
+    `limit` seconds it reports where every thread of this process is and what the child processes are doing
+    (C16-HUNG line), asks the forked children for their stacks (SIGUSR1, faulthandler registered before the fork:
+    they land on stderr) and ends the session.  A time-out is data for the parent, never a verdict."""
+
+    def __init__(self, limit, state, early=None):
+        super().__init__(daemon=True, name='c16-watchdog')
+        self.limit, self.state, self.early = limit, state, early
+        self.finished = threading.Event()
+        try:
+            import faulthandler
+            import signal
+            faulthandler.register(signal.SIGUSR1, all_threads=True)
+        except Exception:  # pylint: disable=broad-except
+            pass
+        self.start()
+
+    def run(self):
+        deadline = time.time() + self.limit
+        while time.time() < deadline:
+            if self.finished.wait(1.0):
+                return
+            if self.early is not None and self.early():  # the session knows that it is stuck: no need to wait longer
+                break
+        if self.finished.is_set():
+            return
+        import signal
+        import traceback
+        out = {'after_s': round(self.limit - max(0.0, deadline - time.time()), 1), 'threads': [], 'children': []}
+        try:
+            names = {t.ident: t.name for t in threading.enumerate()}
+            for ident, frame in sys._current_frames().items():
+                stack = traceback.extract_stack(frame)[-7:]
+                out['threads'].append(names.get(ident, str(ident)) + ': ' + ' < '.join(
+                    f'{fs.name}@{fs.filename.rsplit("/", 1)[-1]}:{fs.lineno}' for fs in reversed(stack)))
+        except Exception as err:  # pylint: disable=broad-except
+            out['threads'].append(f'?{err!r}')
+        try:
+            import psutil
+            for child in psutil.Process().children(recursive=True):
+                info = {'pid': child.pid, 'ppid': child.ppid(), 'status': child.status(), 'cmd': ' '.join(child.cmdline()[-3:])[-90:]}
+                try:
+                    with open(f'/proc/{child.pid}/wchan') as f:
+                        info['wchan'] = f.read()
+                    info['threads'] = child.num_threads()
+                    info['cpu_s'] = round(sum(child.cpu_times()[:2]), 2)
+                except Exception:  # pylint: disable=broad-except
+                    pass
+                out['children'].append(info)
+                try:
+                    os.kill(child.pid, signal.SIGUSR1)
+                except Exception:  # pylint: disable=broad-except
+                    pass
+        except Exception as err:  # pylint: disable=broad-except
+            out['children'].append(f'?{err!r}')
+        try:
+            out['state'] = self.state()
+        except Exception as err:  # pylint: disable=broad-except
+            out['state'] = f'?{err!r}'
+        sys.stdout.write('C16-HUNG ' + json.dumps(out) + '\n')
+        sys.stdout.flush()
+        time.sleep(3.0)  # the children's stack dumps
+        os._exit(3)
+
+
+def install_coldfork(cfg, state):
+    """Scheduling only (nothing of forml is replaced).  (1) The first time the loop thread forks a process after it has
+    loaded the components of the cold application's project - that is `multiprocessing.Manager()` in
+    `prediction.Executor.__init__` - it waits, right before the fork, until ANOTHER thread of the engine (an executor
+    thread unpickling a result, a pool thread) has begun to import the top-level package `forml`.  (2) That thread
+    stays inside its import for `park_s` seconds, as if it had been descheduled there.  Both are legal schedules."""
+    main = threading.main_thread()
+    window, inside, waited = threading.Event(), threading.Event(), threading.Event()
+    state.update(pid=os.getpid(), armed=False, window=False, other_inside=None, importers=[])
+
+    def before_fork():
+        if (state['armed'] and window.is_set() and not waited.is_set() and threading.current_thread() is main
+                and os.getpid() == state['pid']):
+            waited.set()
+            state['forml_loaded_at_fork'] = 'forml' in sys.modules
+            state['other_inside'] = inside.wait(cfg.get('wait_s', 20))
+            if state['other_inside']:  # from now on: an answer within `stuck_s`, or the watchdog looks at the threads
+                state['forked_at'] = time.time()
+
+    class Parker:
+        @staticmethod
+        def find_spec(name, path=None, target=None):
+            if os.getpid() != state['pid'] or not state['armed']:
+                return None
+            me = threading.current_thread()
+            if me is main and name.split('.')[0] == cfg['cold_package']:
+                window.set()  # the loop thread is loading the components of the cold application's project
+                state['window'] = True
+            elif name == 'forml':
+                state['importers'].append(me.name)
+                if window.is_set() and me is not main and not inside.is_set():
+                    inside.set()
+                    time.sleep(cfg.get('park_s', 3))
+            return None
+
+    os.register_at_fork(before=before_fork)
+    sys.meta_path.insert(0, Parker)
+
+
+def make_gateway(engine):
+    """the real REST route (forml.provider.gateway.rest.Apply in a Starlette application) in front of the engine,
+    driven in-process through ASGI: -> coroutine(req) -> (status, headers, body)"""
+    from starlette import applications
+    from forml.provider.gateway import rest
+
+    app = applications.Starlette(routes=[rest.Apply(engine.apply), rest.Stats(engine.stats)], debug=False)
+
+    async def call(req):
+        path = '/' + req['app']
+        scope = {'type': 'http', 'asgi': {'version': '3.0', 'spec_version': '2.3'}, 'http_version': '1.1', 'method': 'POST',
+                 'scheme': 'http', 'path': path, 'raw_path': path.encode(), 'query_string': b'', 'root_path': '',
+                 'headers': [(b'host', b'c16'), (b'content-type', req['enc'].encode()), (b'accept', req['accept'].encode())],
+                 'server': ('c16', 80), 'client': ('c16', 1)}
+        body = [req['body'].encode()]
+        sent = []
+        gone = asyncio.Event()
+
+        async def receive():
+            if body:
+                return {'type': 'http.request', 'body': body.pop(), 'more_body': False}
+            await gone.wait()
+            return {'type': 'http.disconnect'}
+
+        async def send(message):
+            sent.append(message)
+
+        try:
+            await app(scope, receive, send)
+        finally:
+            gone.set()
+        start = next(m for m in sent if m['type'] == 'http.response.start')
+        payload = b''.join(m.get('body', b'') for m in sent if m['type'] == 'http.response.body')
+        return start['status'], {k.decode().lower(): v.decode() for k, v in start['headers']}, payload
+
+    return call
 
 
 def make_inventory(descriptors, race=None):
@@ -258,6 +486,7 @@ async def main(plan):
     inventory = make_inventory(descriptors, plan.get('race'))
     engine = _service.Engine(inventory, reg, io.Importer(c16_support.Feed()), processes=plan['processes'])
     inventory.cache = lambda: len(getattr(engine._wrapper, '_descriptors', {'x': 1}))
+    gateway = make_gateway(engine) if plan.get('gateway') else None
     events = []
     seq = [0]
 
@@ -272,6 +501,18 @@ async def main(plan):
             await asyncio.sleep(req['arrival_ms'] / 1000.0)
         emit({'ev': 'arrive', 'c': req['c']})
         try:
+            if gateway is not None:
+                status, headers, payload = await gateway(req)
+                if status == 200:
+                    emit({'ev': 'answer', 'c': req['c'], 'ok': True, 'data': payload.decode(), 'status': status,
+                          'enc': headers.get('content-type', '').split(';')[0].strip(),
+                          'instance': headers.get('x-forml-instance', '')})
+                else:
+                    cls = {415: 'Unsupported', 404: 'MissingError', 400: 'InvalidError', 500: 'FailedError'}.get(
+                        status, f'HTTP{status}')
+                    emit({'ev': 'answer', 'c': req['c'], 'ok': False, 'cls': cls, 'msg': payload.decode()[:160],
+                          'status': status})
+                return
             request = layout.Request(req['body'].encode(), layout.Encoding(req['enc']),
                                      accept=[layout.Encoding(req['accept'])])
             resp = await engine.apply(req['app'], request)
@@ -284,7 +525,18 @@ async def main(plan):
 
     t0 = time.time()
     out = {'batches': []}
-    for batch in plan['batches']:
+    cold = {}
+    dog = Watchdog(plan.get('hang_s', 300), lambda: {'answered': sum(1 for e in events if e['ev'] == 'answer'),
+                                                     'last_event_s': events[-1]['t'] if events else None,
+                                                     'events': list(events), 'coldfork': dict(cold)},
+                   early=lambda: bool(cold.get('forked_at')) and time.time() - cold['forked_at'] > cold.get('stuck_s', 20)
+                   and not any(e['ev'] == 'answer' and e['t'] + t0 > cold['forked_at'] for e in events))
+    if plan.get('coldfork'):
+        install_coldfork(plan['coldfork'], cold)
+        cold['stuck_s'] = plan['coldfork'].get('stuck_s', 20)
+    for bi, batch in enumerate(plan['batches']):
+        if plan.get('coldfork') and bi == plan['coldfork']['arm_batch']:
+            cold['armed'] = True
         tasks = {asyncio.ensure_future(call(r)): r['c'] for r in batch['requests']}
         done, pending = await asyncio.wait(tasks, timeout=batch['deadline_s'])
         lost = sorted(tasks[t] for t in pending)
@@ -299,6 +551,8 @@ async def main(plan):
             break
     out['events'] = events
     out['race_log'] = getattr(inventory, 'log', [])
+    out['coldfork'] = dict(cold)
+    dog.finished.set()
     sys.stdout.write('C16-TRACE ' + json.dumps(out) + '\n')
     sys.stdout.flush()
     if plan.get('shutdown_s'):  # otherwise the parent kills the whole process group: shutting down is not under test
@@ -815,6 +1069,8 @@ async def main(plan, loop):
     inventory = make_inventory(descriptors, ctl)
     ctl.engine = _service.Engine(inventory, reg, io.Importer(c16_support.Feed()), processes=plan['processes'])
     out = {'rounds': []}
+    dog = base.Watchdog(plan.get('hang_s', 400), lambda: {
+        'last': ctl.log[-3:], 'flags': dict(ctl.flags), 'events': [e for e in ctl.log if e['ev'] in ('arrive', 'answer')]})
     for rnd in plan['rounds']:
         res = await ctl.round(rnd)
         res['wall'] = round(time.time() - ctl.t0, 3)
@@ -825,6 +1081,7 @@ async def main(plan, loop):
     out['log'] = ctl.log
     out['flags'] = dict(ctl.flags)
     out['flag_notes'] = ctl.flag_notes
+    dog.finished.set()
     sys.stdout.write('C16-TRACE ' + json.dumps(out) + '\n')
     sys.stdout.flush()
     ctl.release_everything()
@@ -847,11 +1104,16 @@ if __name__ == '__main__':
 '''
 
 KNOWN_APP_MISSING = 'descriptor-race-known-app-missing'
+LOOP_BLOCKED = 'event-loop-blocked-in-put-forked-manager-deadlocked'
 SESSION_TIMEOUT = 420  # s; a hanging session is a machinery error (exit 2), never a violation
 DELAYS = [0, 0, 0, 1, 1, 2, 3, 5, 8, 13, 20, 40]
-FAULTS = ['unknownApp', 'badEncoding', 'missingColumn', 'badAccept']
+FAULTS = ['unknownApp', 'badEncoding', 'missingColumn', 'badAccept', 'refused', 'refused']
 WANT = {'unknownApp': ('error', 'missingApp'), 'badEncoding': ('error', 'unsupported'),
         'missingColumn': ('error', 'missingFeatures'), 'badAccept': ('error', 'unsupported')}
+# pipeline shapes of the generated projects: one letter per parallel mapper branch after the head ('s' stateful,
+# 'l' stateless); a single letter = linear pipeline (one stateful actor, no fan-out)
+SHAPES = ['s', 's', 'sl', 'ls', 'ss', 'sls', 'lss', 'ssl']
+PIDMARK = 7 * 10 ** 12
 # how the controller of a controlled session weighs the kinds of action it can take next
 CTL_STYLES = {
     'uniform': {'arrive': 1, 'start': 1, 'list': 1, 'gate': 1},
@@ -869,44 +1131,70 @@ class C16(fw.Check):
     RULE = ('sessions = one real Engine (Wrapper, Dealer, prediction.Executor, spawned Pool, forked workers) over a temp '
             'posix registry + in-memory inventory with 1..3 applications (Generic + Explicit selector) over 1..3 distinct '
             'model instances (distinct projects and/or generations, distinct states; sometimes two applications share an '
-            'instance), pool size 1..4; requests are text/csv or plain application/json, 1..3 rows, shuffled column '
-            'order; 0..50 % failing requests (unknown application / unsupported content type / missing column / no '
-            'acceptable response encoding) at random positions.  (a) CONTROLLED sessions (kind ctl): the event loop\'s '
-            'run_in_executor is intercepted, inventory.list() parks its thread, the model actor waits at a gate in the '
-            'worker process; a seeded controller performs one action at a time (arrive c / start c\'s pending off-loop '
-            'call / un-park c / let c\'s task finish), chosen among those available with round-specific weights '
-            '(uniform, flood, drain, park, starve), order (random, fifo, lifo) and burst rate, and lets the system '
-            'settle in between: 6 (quick) / 100 (thorough) sessions x 12 / 30 rounds of 1..16 (once 64, 32) requests + '
-            'descriptor-race sessions (first requests of one application with every thread parked in list()); a case '
-            '= one round, distinct by its requests AND the performed action list, non-trivial when >= 2 requests and '
-            '>= 1 healthy.  (b) TIMED sessions (as before): 2..6 batches of 1..64 concurrent Engine.apply calls with '
-            'per-request actor delays 0..40 ms and arrival offsets 0..25 ms, all 4 fault kinds x 4 positions for '
-            'batches of 4, the barrier-driven descriptor race, one fatal-exception session recorded as behaviour; a '
-            'case = one batch.  Every trace (arrive/answer events) must be accepted by the model driver (projection of '
-            'a schedule of the locked model, same answers, nothing left enabled); oracle on the real trace: every call '
-            'answered (lost = nothing left to do and no event for 90 s while executor and pool are alive), rows carry '
-            'own token/row index and the state of the instance the application selects, response.instance is that '
-            'instance, response encoding is the accepted one, failing requests get their own platform error and nobody '
-            'else fails.  Evidence only (coverage.controlled): the fine-grained log of each controlled session is '
-            'linearised into a model schedule which the model must follow step by step with the same answers.')
+            'instance), pool size 1..4.  Every generated project has a pipeline SHAPE: linear (one stateful actor) or a head '
+            'actor followed by payload.MapReduce with 2..3 parallel mapper branches (stateful / stateless mix) and a reducer; '
+            'a mapper refuses (forml.InvalidError, raised INSIDE the pipeline after the fork) a request whose `bad` column '
+            'names its branch.  Requests are text/csv or plain application/json, 1..3 rows, shuffled column order; 0..50 % '
+            'failing requests (unknown application / unsupported content type / missing column / no acceptable response '
+            'encoding / refused by a payload-selected branch) at random positions; answers carry the pid of the worker '
+            'that computed them.  (a) CONTROLLED sessions (kind ctl): the event loop\'s run_in_executor is intercepted, '
+            'inventory.list() parks its thread, the head actor waits at a gate in the worker process; a seeded controller '
+            'performs one action at a time (arrive c / start c\'s pending off-loop call / un-park c / let c\'s task finish), '
+            'chosen among those available with round-specific weights (uniform, flood, drain, park, starve), order (random, '
+            'fifo, lifo) and burst rate, and lets the system settle in between: 6 (quick) / 100 (thorough) sessions x 12 / '
+            '30 rounds of 1..16 (once 64, 32) requests + descriptor-race sessions + PINNED sessions (scripted: every worker '
+            'of a 1..3-worker pool warmed up, then W-1 blockers held at the gate and sequences fail->healthy, '
+            'healthy->fail->healthy, fail->fail->healthy, ... driven through the one free worker); a case = one round, '
+            'distinct by its requests AND the performed action list, non-trivial when >= 2 requests and >= 1 healthy.  '
+            '(b) TIMED sessions: 2..6 batches of 1..64 concurrent Engine.apply calls with per-request actor delays 0..40 ms '
+            'and arrival offsets 0..25 ms, all fault kinds x 4 positions for batches of 4, the barrier-driven descriptor '
+            'race, SERIAL sessions (one request at a time on forking pipelines, pool size 1 mostly: the whole session is one '
+            'worker\'s history; a case = the session), GATEWAY sessions (the same batches through rest.Apply in a Starlette '
+            'application, in-process ASGI: status codes, media type, x-forml-instance), one fatal-exception session and one '
+            'after-stop session recorded as behaviour; a case = one batch.  (c) the listed witness of finding C16-F2 '
+            '(COLD-FORK session: an executor created while another executor\'s thread re-imports forml, scheduled through '
+            'os.register_at_fork and a sys.meta_path observer) is replayed on every run; thorough generates 4 more.  Every '
+            'trace (arrive/answer events) must be accepted by the model driver (projection of a schedule of the locked '
+            'model with the reset of the code that exists, same answers, nothing left enabled); oracle on the real trace: '
+            'every call answered (lost = nothing left to do and no event for 90 s while executor and pool are alive and '
+            'nothing is queued, reproduced by a second run), rows of every branch carry own token/row index and the state of '
+            'the instance the application selects, response.instance is that instance, response encoding is the accepted '
+            'one, failing requests get their own platform error (a refusal carries the token of the refused request) and '
+            'nobody else fails; HTTP status = the one of the own outcome.  Evidence only: the fine-grained log of each '
+            'controlled session is linearised into a model schedule which the model must follow step by step '
+            '(coverage.controlled); every worker\'s observed history is replayed through the model\'s serveAll '
+            '(coverage.worker_histories).  TIME-OUTS ARE DATA: a session that does not end, a stall with work still queued '
+            'or an unreproducible stall is recorded (coverage.timeouts) and not judged; the answers such a session did give '
+            'are still judged; only when more than half of the sessions time out the check refuses to answer.')
     TRUSTED = [
         'OS scheduling, multiprocessing.Manager queues (assumed FIFO, lossless), asyncio.wrap_future, process spawn, '
         'concurrent.futures pools: modelled as nondeterministic interleaving; controlled sessions choose the order of '
         'the off-loop calls, of the descriptor critical sections and of the task completions, everything below '
         '(queue hand-over, thread wake-ups) is sampled only',
         'descriptor.select is a static Explicit strategy in the sessions (selection strategies are C17)',
-        'the generated actor (state*10^6 + token*10 + row) stands for the uninterpreted f(instance, payload)',
+        'the generated actors (branch*10^9 + state*10^6 + token*10 + row per mapper branch) stand for the uninterpreted '
+        'f(instance, payload); one fan-out level (head -> n mappers -> reducer) stands for pyfunc\'s replica mechanism '
+        '(general DAGs: C02)',
         'await-level observation: a coroutine returns at most once, so duplicates are only checked in the model; '
         'lost = not answered although nothing is left to do, for 90 s, while executor and pool are alive',
-        'controller hooks: asyncio loop.run_in_executor (public API), the inventory passed to Engine, the actor of '
-        'the generated project; asyncio.Task._fut_waiter is read to see that a coroutine has been resumed',
+        'controller hooks: asyncio loop.run_in_executor (public API), the inventory passed to Engine, the actors of the '
+        'generated project; asyncio.Task._fut_waiter is read to see that a coroutine has been resumed; cold-fork '
+        'sessions: os.register_at_fork(before=...) and a sys.meta_path observer that only wait / sleep (scheduling)',
+        'the dead-lock of finding C16-F2 is diagnosed from thread stacks (loop thread in a manager-proxy call, a manager '
+        'request handler blocked in importlib\'s lock while unpickling), never from elapsed time',
     ]
     ASSUMPTIONS = ['inventory content is static during a session',
-                   'fault class = platform-level errors (forml.AnyError); a non-platform exception in an actor stops '
-                   'the pool (C16_fatal_counterexample) and is recorded as behaviour outside the property',
+                   'fault class = platform-level errors (forml.AnyError, raised before or inside the pipeline); a '
+                   'non-platform exception in an actor stops the pool (C16_fatal_counterexample, '
+                   'C16_late_refusal_counterexample) and is recorded as behaviour outside the property',
                    'the theorems about answers being exact are for _get_descriptor as it exists (critical section '
-                   'under Wrapper._lock, /repo 710a92e); the code before that repair is refuted by '
-                   'C16_descriptor_race_counterexample, replayed on every run as fixed finding C16-F1']
+                   'under Wrapper._lock, /repo 710a92e) and for pyfunc.Expression.__call__ as it exists (finally: reset of '
+                   'every fork); the code before the lock is refuted by C16_descriptor_race_counterexample (fixed finding '
+                   'C16-F1, replayed on every run), other reset disciplines by C16_worker_anyreset_counterexample / '
+                   'C16_reset_counterexample',
+                   'finding C16-F2 (open; repair proposed in fixes/C16-unloaded-restore.diff): with forml.setup._importer as '
+                   'it exists "every caller is answered" holds only while no executor is created during another executor '
+                   'thread\'s re-import of forml (C16_coldfork_partial / _counterexample)']
 
     def __init__(self, tier, seed):
         super().__init__(tier, seed)
@@ -914,8 +1202,8 @@ class C16(fw.Check):
         self._results = []
 
     # ---- generator -------------------------------------------------------------------------------------------
-    def _topology(self, napps: int):
-        """apps -> (project, generation); states distinct per instance."""
+    def _topology(self, napps: int, shapes=None):
+        """apps -> (project, generation); states distinct per instance; every project has a pipeline shape."""
         rng = self.rng
         projects = []  # {'name', 'states'}
         apps = []
@@ -923,7 +1211,8 @@ class C16(fw.Check):
         style = rng.choice(['projects', 'projects', 'generations', 'shared'])
         for a in range(napps):
             if a == 0 or style == 'projects':
-                projects.append({'name': f'p{len(projects)}', 'states': [next(state)]})
+                projects.append({'name': f'p{len(projects)}', 'states': [next(state)],
+                                 'shape': rng.choice(SHAPES) if shapes is None else shapes[len(projects) % len(shapes)]})
                 apps.append({'name': f'app{a}', 'project': projects[-1]['name'], 'generation': 1})
             elif style == 'generations':
                 projects[0]['states'].append(next(state))
@@ -932,29 +1221,38 @@ class C16(fw.Check):
                 apps.append({'name': f'app{a}', 'project': apps[0]['project'], 'generation': apps[0]['generation']})
         return projects, apps
 
-    def _request(self, c: int, napps: int, fault, maxdelay=None):
+    def _request(self, c: int, napps: int, fault, maxdelay=None, fans=None, app=None, branch=None):
+        """`fans`: app index -> fan-out of the pipeline of the instance it selects (None: all linear).  A `refused`
+        request carries, in one of its rows, the number of the mapper branch that has to refuse it."""
         rng = self.rng
-        app = rng.randrange(napps)
+        app = rng.randrange(napps) if app is None else app
+        fan = max(1, (fans or [1] * napps)[app])
         rows = rng.choice([1, 1, 1, 2, 3])
         token = 1000 + c  # unique per caller within the session
         delay = rng.choice(DELAYS if maxdelay is None else [d for d in DELAYS if d <= maxdelay])
         js = rng.random() < 0.3
-        cols = ['token', 'delay']
+        cols = ['token', 'delay', 'bad']
         if fault == 'missingColumn':
-            cols = ['token']
+            cols = rng.choice([['token', 'bad'], ['token', 'delay'], ['token']])
         elif rng.random() < 0.3:
-            cols = ['delay', 'token']
-        vals = {'token': token, 'delay': delay}
-        if fault == 'fatal':
-            vals['delay'] = -1
+            cols = rng.choice([['delay', 'token', 'bad'], ['bad', 'delay', 'token'], ['token', 'bad', 'delay']])
+        bad = [0] * rows
+        if fault == 'refused':
+            branch = rng.randrange(fan) if branch is None else branch
+            bad[rng.randrange(rows)] = branch + 1
+        elif fault is None and rng.random() < 0.1:
+            bad[rng.randrange(rows)] = fan + 1 + rng.randrange(2)  # names a branch the pipeline does not have: harmless
+        vals = {'token': [token] * rows, 'delay': [-1 if fault == 'fatal' else delay] * rows, 'bad': bad}
         if js:
-            body = json.dumps({k: [vals[k]] * rows for k in cols})
+            body = json.dumps({k: vals[k] for k in cols})
             enc = 'application/json'
         else:
-            body = ','.join(cols) + '\n' + ''.join(','.join(str(vals[k]) for k in cols) + '\n' for _ in range(rows))
+            body = ','.join(cols) + '\n' + ''.join(','.join(str(vals[k][i]) for k in cols) + '\n' for i in range(rows))
             enc = 'text/csv'
         req = {'c': c, 'appidx': app, 'app': f'app{app}', 'enc': enc, 'accept': enc, 'body': body, 'rows': rows,
                'token': token, 'delay': delay, 'fault': fault, 'arrival_ms': rng.choice([0, 0, 0, 1, 3, 7, 15, 25])}
+        if fault == 'refused':
+            req['branch'] = branch
         if fault == 'unknownApp':
             req['app'], req['appidx'] = rng.choice(['nope', 'app9', 'App0x']), 9
         if fault == 'badEncoding':
@@ -963,11 +1261,13 @@ class C16(fw.Check):
             req['accept'] = rng.choice(['foo/bar', 'application/x-unknown', 'image/png'])
         return req
 
-    def _session(self, sid: str, nbatches: int, sizes=None, processes=None, napps=None, faultrate=None):
+    def _session(self, sid: str, nbatches: int, sizes=None, processes=None, napps=None, faultrate=None, shapes=None):
         rng = self.rng
         napps = napps or rng.choice([1, 2, 2, 3, 3])
         processes = processes or rng.choice([1, 2, 3, 4])
-        projects, apps = self._topology(napps)
+        projects, apps = self._topology(napps, shapes)
+        plan = {'sid': sid, 'kind': 'random', 'projects': projects, 'apps': apps, 'processes': processes}
+        fans = self._fans(plan)[0]
         faultrate = rng.choice([0.0, 0.1, 0.25, 0.4]) if faultrate is None else faultrate
         batches, c = [], 0
         for b in range(nbatches):
@@ -975,30 +1275,59 @@ class C16(fw.Check):
             reqs = []
             for _ in range(n):
                 fault = rng.choice(FAULTS) if rng.random() < faultrate else None
-                reqs.append(self._request(c, napps, fault))
+                reqs.append(self._request(c, napps, fault, fans=fans))
                 c += 1
             batches.append({'requests': reqs, 'deadline_s': 90})
-        return {'sid': sid, 'kind': 'random', 'projects': projects, 'apps': apps, 'processes': processes,
-                'batches': batches}
+        plan['batches'] = batches
+        return plan
+
+    # what one worker serves one after the other: H healthy, F refused inside the pipeline (branch chosen per
+    # request), M missing column (refused at the head)
+    SEQUENCES = ['HFH', 'FH', 'HFFH', 'FFH', 'HFHFH', 'HMFH', 'HFMH', 'HHFHH', 'HFHH']
+
+    def _serial_session(self, sid: str, processes=None):
+        """requests one at a time (every batch is a single call, awaited before the next one is sent) against forking
+        pipelines: with pool size 1 every request is served by the same worker, so the whole session is one worker
+        history; with a larger pool the histories are whatever the task queue deals (the answers tell the pid)."""
+        rng = self.rng
+        napps = rng.choice([1, 1, 2])
+        fork = [sh for sh in SHAPES if len(sh) > 1]
+        plan = self._session(sid, 0, processes=processes or rng.choice([1, 1, 1, 2]), napps=napps,
+                             shapes=[rng.choice(fork) for _ in range(napps)])
+        plan['kind'] = 'serial'
+        fans = self._fans(plan)[0]
+        c = 0
+        for _ in range(rng.choice([2, 3])):
+            app = rng.randrange(napps)
+            for letter in rng.choice(self.SEQUENCES):
+                fault = {'H': None, 'F': 'refused', 'M': 'missingColumn'}[letter]
+                # the branch refusing it: any but (mostly) not the last one - an interrupted evaluation leaves replicas
+                branch = rng.randrange(max(1, fans[app] - (rng.random() < 0.8))) if fault == 'refused' else None
+                r = self._request(c, napps, fault, maxdelay=0, fans=fans, app=app, branch=branch)
+                r['arrival_ms'] = 0
+                plan['batches'].append({'requests': [r], 'deadline_s': 90})
+                c += 1
+        return plan
 
     def _ctl_session(self, sid: str, nrounds: int, gate_list=None, napps=None, processes=None, sizes=None,
-                     faultrate=None):
+                     faultrate=None, shapes=None):
         """a controlled session: one engine, `nrounds` rounds; every round is a set of requests driven to completion
         under a schedule the controller picks with the round's seed, weights, order and burst rate."""
         rng = self.rng
         napps = napps or rng.choice([1, 2, 2, 3, 3])
-        projects, apps = self._topology(napps)
+        projects, apps = self._topology(napps, shapes)
         plan = {'sid': sid, 'kind': 'ctl', 'projects': projects, 'apps': apps,
                 'processes': processes or rng.choice([1, 2, 2, 3, 4]),
                 'gate_list': (rng.random() < 0.6) if gate_list is None else gate_list}
         of_app, _ = self._instances(plan)
+        fans = self._fans(plan)[0]
         rounds, c = [], 0
         for k in range(nrounds):
             n = sizes[k] if sizes else rng.choice([1, 2, 2, 3, 3, 4, 4, 5, 6, 6, 8, 8, 12, 16])
             rate = rng.choice([0.0, 0.0, 0.15, 0.3, 0.5]) if faultrate is None else faultrate
             reqs = []
             for _ in range(n):
-                r = self._request(c, napps, rng.choice(FAULTS) if rng.random() < rate else None, maxdelay=0)
+                r = self._request(c, napps, rng.choice(FAULTS) if rng.random() < rate else None, maxdelay=0, fans=fans)
                 r['arrival_ms'] = 0
                 r['inst'] = of_app[r['appidx']] if r['appidx'] < len(of_app) else None
                 reqs.append(r)
@@ -1018,20 +1347,152 @@ class C16(fw.Check):
                                  faultrate=0.0)
         plan['rounds'][0].update(style='park', weights=CTL_STYLES['park'], order=self.rng.choice(['fifo', 'lifo']),
                                  burst=0.0)
-        for i, r in enumerate(plan['rounds'][0]['requests']):  # two first requests for app0, one for app1
-            r.update(appidx=0 if i < 2 else 1, app='app0' if i < 2 else 'app1')
-            r['inst'] = self._instances(plan)[0][r['appidx']]
+        fans, of_app = self._fans(plan)[0], self._instances(plan)[0]
+        reqs = plan['rounds'][0]['requests']  # (the same list object as plan['batches'][0]['requests'])
+        for i, r in enumerate(reqs):  # two first requests for app0, one for app1
+            new = self._request(r['c'], 2, None, maxdelay=0, fans=fans, app=0 if i < 2 else 1)
+            new.update(arrival_ms=0, inst=of_app[new['appidx']])
+            reqs[i] = new
         return plan
+
+    def _ctl_pin_session(self, sid: str, processes=None):
+        """controlled and scripted: ONE application with a forking pipeline on a pool of W workers.  Round 0 warms every
+        worker up (W healthy requests computed at the same time - each worker takes one).  Every further round parks
+        W-1 blockers at the gate inside W-1 workers and drives a sequence (fail -> healthy, healthy -> fail -> healthy,
+        fail -> fail -> healthy, ...) through the one worker that is free, then lets the blockers go.  So successive
+        requests are pinned onto the same worker of a multi-worker pool by the schedule, not by luck."""
+        rng = self.rng
+        nworkers = processes or rng.choice([1, 2, 2, 3])
+        fork = [sh for sh in SHAPES if len(sh) > 1]
+        plan = self._ctl_session(sid, 0, gate_list=False, napps=1, processes=nworkers, shapes=[rng.choice(fork)])
+        plan['pinned'] = True
+        fans, of_app = self._fans(plan)[0], self._instances(plan)[0]
+        counter = [0]
+
+        def request(fault, branch=None):
+            r = self._request(counter[0], 1, fault, maxdelay=0, fans=fans, app=0, branch=branch)
+            r.update(arrival_ms=0, inst=of_app[0])
+            counter[0] += 1
+            return r
+
+        def submit(r):
+            return [['arrive', r['c']], ['start', r['c']], ['start', r['c']]]
+
+        def finish(r):
+            if r['fault'] == 'missingColumn':  # refused at the head, before the gate
+                return []
+            return [['gate', r['c']]] + ([['start', r['c']]] if r['fault'] is None else [])
+
+        rounds = []
+        warm = [request(None) for _ in range(nworkers)]
+        rounds.append((warm, [a for r in warm for a in submit(r)] + [a for r in warm for a in finish(r)]))
+        for _ in range(rng.choice([2, 3])):
+            blockers = [request(None) for _ in range(nworkers - 1)]
+            actions = [a for r in blockers for a in submit(r)]
+            seq = []
+            for letter in rng.choice(self.SEQUENCES):
+                fault = {'H': None, 'F': 'refused', 'M': 'missingColumn'}[letter]
+                branch = rng.randrange(max(1, fans[0] - (rng.random() < 0.8))) if fault == 'refused' else None
+                r = request(fault, branch)
+                seq.append(r)
+                actions += submit(r) + finish(r)
+            actions += [a for r in blockers for a in finish(r)]
+            rounds.append((blockers + seq, actions))
+        plan['rounds'] = [{'requests': reqs, 'seed': rng.randrange(1 << 30), 'style': 'pin', 'weights': CTL_STYLES['drain'],
+                           'order': 'fifo', 'burst': 0.0, 'actions': actions} for reqs, actions in rounds]
+        plan['batches'] = [{'requests': r['requests'], 'deadline_s': 90} for r in plan['rounds']]
+        return plan
+
+    def _coldfork_session(self, sid: str):
+        """an executor created while another executor's thread receives a result: a warm application, then - while one
+        of its requests is being computed - the first request of a second application; the scheduling hooks of the
+        session (install_coldfork) make the loop thread create the second executor while the first executor's thread
+        is inside its import of `forml`; later requests of both applications follow."""
+        rng = self.rng
+        state = iter(rng.sample(range(1, 900), 2))
+        plan = {'sid': sid, 'kind': 'coldfork', 'processes': rng.choice([1, 2]), 'projects': [], 'apps': []}
+        for a in range(2):  # two applications over two distinct instances (two executors)
+            plan['projects'].append({'name': f'p{a}', 'states': [next(state)], 'shape': rng.choice(SHAPES)})
+            plan['apps'].append({'name': f'app{a}', 'project': f'p{a}', 'generation': 1})
+        fans = self._fans(plan)[0]
+        warm, cold = rng.sample([0, 1], 2)
+        reqs = [self._request(c, 2, None, maxdelay=0, fans=fans, app=app) for c, app in enumerate([warm, warm, cold, cold, warm])]
+        for r in reqs:
+            r['arrival_ms'] = 0
+        # the result of the second warm request arrives while the executor of the cold application is being created
+        reqs[1] = self._with_delay(reqs[1], rng.choice([900, 1200, 1500]))
+        reqs[2]['arrival_ms'] = rng.choice([300, 400, 500])
+        plan['batches'] = [{'requests': [reqs[0]], 'deadline_s': 90}, {'requests': reqs[1:3], 'deadline_s': 90},
+                           {'requests': reqs[3:], 'deadline_s': 90}]
+        plan['coldfork'] = {'arm_batch': 1, 'park_s': rng.choice([2, 3]), 'wait_s': 8, 'cold_package': f'c16_p{cold}'}
+        plan['hang_s'] = 60
+        return plan
+
+    @staticmethod
+    def _with_delay(req, delay):
+        """the same request with another per-request processing delay"""
+        req = dict(req, delay=delay)
+        if req['enc'] == 'application/json':
+            body = json.loads(req['body'])
+            body['delay'] = [delay] * len(body['delay'])
+            req['body'] = json.dumps(body)
+        else:
+            lines = req['body'].strip().split('\n')
+            cols = lines[0].split(',')
+            i = cols.index('delay')
+            rows = [ln.split(',') for ln in lines[1:]]
+            for row in rows:
+                row[i] = str(delay)
+            req['body'] = '\n'.join([lines[0]] + [','.join(row) for row in rows]) + '\n'
+        return req
+
+    @staticmethod
+    def _deadlock_signature(trace):
+        """positive diagnosis of the cold-fork deadlock in a watchdog report (never concluded from time alone): the
+        event-loop thread of the engine waits for the reply to a manager-proxy call, and a request-handler thread of a
+        forked manager process is blocked acquiring an import lock while unpickling that request."""
+        hung = trace.get('hung') or {}
+        loop = [t for t in hung.get('threads', []) if t.startswith('MainThread:') and '_callmethod@managers.py' in t]
+        blocks = (trace.get('stderr_tail') or '').split('\n\n')
+        wedged = [b for b in blocks if 'importlib._bootstrap>' in b and ' in acquire' in b and 'serve_client' in b
+                  and 'connection.py' in b]
+        if loop and wedged:
+            return {'loop_thread': loop[0][:400], 'manager_thread': wedged[0].strip().split('\n')[:6],
+                    'scheduling': (hung.get('state') or {}).get('coldfork')}
+        return None
+
+    def _gateway_session(self, sid: str, nbatches: int):
+        """the same kind of concurrent batches, sent through the REST route (rest.Apply in a Starlette application,
+        in-process ASGI): application = path, content-type / accept headers, body; the answers are HTTP responses."""
+        plan = self._session(sid, nbatches, sizes=[self.rng.choice([4, 8, 12, 16, 24]) for _ in range(nbatches)],
+                             faultrate=self.rng.choice([0.25, 0.4]))
+        plan.update(kind='gateway', gateway=True)
+        return plan
+
+    def _after_stop_session(self, sid: str):
+        """what a request gets that arrives right after a non-platform exception has stopped its pool (outside the
+        fault class): refused ('Executor not running') once the executor thread has left its loop, accepted and never
+        answered before - recorded as behaviour, both are schedules of the model (lateSubmit / exit)."""
+        projects = [{'name': 'p0', 'states': [4], 'shape': self.rng.choice(['s', 'ls'])}]
+        apps = [{'name': 'app0', 'project': 'p0', 'generation': 1}]
+        reqs = [self._request(0, 1, None, maxdelay=0), self._request(1, 1, 'fatal'), self._request(2, 1, None, maxdelay=0),
+                self._request(3, 1, None, maxdelay=0)]
+        for r in reqs:
+            r['arrival_ms'] = 0
+        return {'sid': sid, 'kind': 'fatal', 'after_stop': True, 'projects': projects, 'apps': apps, 'processes': 1,
+                'batches': [{'requests': [reqs[0]], 'deadline_s': 60}, {'requests': [reqs[1]], 'deadline_s': 20},
+                            {'requests': [reqs[2]], 'deadline_s': 6}, {'requests': [reqs[3]], 'deadline_s': 6}]}
 
     def _positions_session(self, sid: str):
         """all fault kinds x all positions of a batch of 4 (arrival order = position)."""
         projects, apps = self._topology(2)
+        fans = self._fans({'projects': projects, 'apps': apps})[0]
         batches, c = [], 0
-        for fault in FAULTS:
+        for fault in sorted(set(FAULTS)):
             for pos in range(4):
                 reqs = []
                 for i in range(4):
-                    r = self._request(c, 2, fault if i == pos else None, maxdelay=8)
+                    r = self._request(c, 2, fault if i == pos else None, maxdelay=8, fans=fans)
                     r['arrival_ms'] = 4 * i
                     reqs.append(r)
                     c += 1
@@ -1045,9 +1506,8 @@ class C16(fw.Check):
         apps = [{'name': 'app0', 'project': 'p0', 'generation': 1}, {'name': 'app1', 'project': 'p0', 'generation': 1}]
         reqs = []
         for c in range(2):
-            r = self._request(c, 1, None, maxdelay=0)
-            r.update(appidx=0 if same_app else c, arrival_ms=0)
-            r['app'] = f"app{r['appidx']}"
+            r = self._request(c, 2, None, maxdelay=0, app=0 if same_app else c)
+            r['arrival_ms'] = 0
             reqs.append(r)
         return {'sid': sid, 'kind': 'race', 'projects': projects, 'apps': apps, 'processes': 2,
                 'race': {'barrier_timeout': 1.5, 'hold': 3.0, 'same_app': same_app},
@@ -1055,7 +1515,7 @@ class C16(fw.Check):
 
     def _fatal_session(self, sid: str):
         """a non-platform exception in one request (outside the fault class): recorded, not judged."""
-        projects = [{'name': 'p0', 'states': [3]}]
+        projects = [{'name': 'p0', 'states': [3], 'shape': self.rng.choice(['s', 'sl', 'lss'])}]
         apps = [{'name': 'app0', 'project': 'p0', 'generation': 1}]
         first = [self._request(0, 1, None, maxdelay=0)]
         mid = [self._request(1, 1, None, maxdelay=40), self._request(2, 1, 'fatal'), self._request(3, 1, None)]
@@ -1121,14 +1581,24 @@ class C16(fw.Check):
                 err = f.read()
         finally:
             shutil.rmtree(root, ignore_errors=True)
-        if hung:
-            raise fw.MachineryError(f"serving session {plan['sid']} did not finish within {SESSION_TIMEOUT}s")
+        # A session that does not come back is a TIME-OUT: data (recorded with everything the watchdog could see),
+        # never a verdict and never a failure of the check; the answers it did give are still judged.
+        wall = round(time.time() - t0, 2)
         line = next((ln for ln in out.split('\n') if ln.startswith('C16-TRACE ')), None)
+        stuck = next((ln for ln in out.split('\n') if ln.startswith('C16-HUNG ')), None)
+        if line is None and stuck is not None:
+            report = json.loads(stuck[len('C16-HUNG '):])
+            events = (report.get('state') or {}).pop('events', []) if isinstance(report.get('state'), dict) else []
+            return {'timeout': f"no end of the session after {report.get('after_s')} s (watchdog)", 'hung': report,
+                    'stderr_tail': (err or '')[-40000:], 'events': events, 'batches': [], 'wall': wall}
+        if line is None and hung:
+            return {'timeout': f'session did not finish within {SESSION_TIMEOUT} s and its watchdog did not report',
+                    'stderr_tail': (err or '')[-3000:], 'events': [], 'batches': [], 'wall': wall}
         if line is None:
             raise fw.MachineryError(f"serving session {plan['sid']} produced no trace (rc={proc.returncode}): "
                                     f"{(err or '')[-1500:]}")
         trace = json.loads(line[len('C16-TRACE '):])
-        trace['wall'] = round(time.time() - t0, 2)
+        trace['wall'] = wall
         return self._shape_ctl(plan, trace) if plan['kind'] == 'ctl' else trace
 
     def _run_sessions(self, plans: list[dict], parallel: int) -> list[dict]:
@@ -1149,6 +1619,27 @@ class C16(fw.Check):
             of_app.append(insts.index(key))
         return of_app, insts
 
+    @classmethod
+    def _fans(cls, plan):
+        """(app index -> fan-out, instance index -> fan-out, instance index -> shape) of the generated pipelines."""
+        of_app, insts = cls._instances(plan)
+        shape = {p['name']: (p.get('shape') or 's') for p in plan['projects']}
+        shapes = [shape[k[0]] for k in insts]
+        return [len(shapes[i]) for i in of_app], [len(sh) for sh in shapes], shapes
+
+    @staticmethod
+    def _pid_of(ev):
+        """the worker process that computed the answer, where the answer tells (evidence only)"""
+        try:
+            if ev['ok']:
+                pids = [v - PIDMARK for v in C16._decode_rows(ev) if v >= PIDMARK]
+                return pids[0] if len(pids) == 1 else None
+            if ev['cls'] == 'InvalidError' and ' pid=' in ev['msg']:
+                return int(ev['msg'].split(' pid=')[1].split()[0])
+        except Exception:  # pylint: disable=broad-except
+            pass
+        return None
+
     @staticmethod
     def _decode_rows(ev):
         data = ev['data']
@@ -1158,28 +1649,47 @@ class C16(fw.Check):
         return [int(float(v)) for v in lines[1:]]
 
     def _canon(self, plan, ev):
-        """observed answer -> ('value', inst, token) | ('error', kind) | ('odd', description)."""
+        """observed answer -> ('value', inst, token, nrows) | ('mixed', inst, tokens per branch, nrows)
+        | ('error', kind) | ('error', 'invalid', token, branch) | ('odd', description)."""
         of_app, insts = self._instances(plan)
+        _, fan_of_inst, shapes = self._fans(plan)
         if ev['ok']:
             try:
                 vals = self._decode_rows(ev)
             except Exception as e:  # pylint: disable=broad-except
                 return ('odd', f'undecodable response {ev["data"][:40]!r}: {e}')
+            vals = [v for v in vals if v < PIDMARK]  # the worker's pid: evidence, not part of the outcome
             if not vals:
                 return ('odd', 'empty response')
-            states = {v // 1000000 for v in vals}
-            tokens = {(v % 1000000) // 10 for v in vals}
-            rows = [v % 10 for v in vals]
-            if len(states) != 1 or len(tokens) != 1 or rows != list(range(len(vals))):
+            cells = [(v // 10 ** 9, (v % 10 ** 9) // 10 ** 6, (v % 10 ** 6) // 10, v % 10) for v in vals]
+            branches = sorted({k for k, _, _, _ in cells})
+            per = {k: [c for c in cells if c[0] == k] for k in branches}
+            if [c[0] for c in cells] != sorted(c[0] for c in cells) or branches != list(range(len(branches))):
                 return ('odd', f'rows of several requests/instances mixed in one response: {vals}')
-            state, token = states.pop(), tokens.pop()
+            nrows = len(per[0])
+            if any([c[3] for c in per[k]] != list(range(len(per[k]))) or len({c[2] for c in per[k]}) != 1
+                   or len({c[1] for c in per[k]}) != 1 for k in branches):
+                return ('odd', f'rows of several requests/instances mixed in one response: {vals}')
+            if len({per[k][0][2] for k in branches}) == 1 and any(len(per[k]) != nrows for k in branches):
+                return ('odd', f'rows of several requests/instances mixed in one response: {vals}')
+            states = {per[k][0][1] for k in branches} - {0}
+            if len(states) != 1:
+                return ('odd', f'rows of several requests/instances mixed in one response: {vals}')
+            state = states.pop()
             hit = [i for i, k in enumerate(insts) if k[2] == state]
             if not hit:
                 return ('odd', f'state {state} belongs to no instance')
             label = [i for i, k in enumerate(insts) if ev['instance'].endswith(f'-{k[0]}-1-{k[1]}')]
             if label != hit:
                 return ('odd', f'response.instance {ev["instance"]} but rows computed with the state of instance {insts[hit[0]]}')
-            return ('value', hit[0], token, len(vals))
+            shape = shapes[hit[0]]
+            if len(branches) != len(shape) or any((per[k][0][1] != 0) != (shape[k] == 's') for k in branches):
+                return ('odd', f'response shape {[(k, per[k][0][1]) for k in branches]} is not the one of the pipeline '
+                               f'{shape!r} of instance {insts[hit[0]]}')
+            tokens = [per[k][0][2] for k in branches]
+            if len(set(tokens)) == 1:
+                return ('value', hit[0], tokens[0], nrows)
+            return ('mixed', hit[0], tuple(tokens), nrows)
         cls, msg = ev['cls'], ev['msg']
         if cls == 'MissingError' and msg.startswith('Application '):
             return ('error', 'missingApp')
@@ -1187,21 +1697,29 @@ class C16(fw.Check):
             return ('error', 'missingFeatures')
         if cls == 'Unsupported':
             return ('error', 'unsupported')
+        if cls == 'InvalidError' and msg.startswith('C16 refused token='):
+            try:
+                return ('error', 'invalid', int(msg.split('token=')[1].split()[0]), int(msg.split('branch=')[1].split()[0]))
+            except (IndexError, ValueError):
+                return ('odd', f'{cls}: {msg[:80]}')
         if cls == 'RuntimeError' and 'Executor not running' in msg:
             return ('error', 'notRunning')
         if cls == 'ValueError' and 'boom' in msg:
             return ('error', 'fatal')
         return ('odd', f'{cls}: {msg[:80]}')
 
-    def _cfg_sexp(self, plan, locked=True):
+    def _cfg_sexp(self, plan, locked=True, reset='always'):
         of_app, insts = self._instances(plan)
+        _, fan_of_inst, _ = self._fans(plan)
         callers = []
         for b in plan['batches']:
             for r in b['requests']:
                 kind = {'missingColumn': 'missingColumn', 'fatal': 'fatal'}.get(r['fault'], 'ok')
+                if r['fault'] == 'refused':
+                    kind = ['refused', r['branch']]
                 callers.append([r['appidx'], r['fault'] == 'badEncoding', r['fault'] == 'badAccept', kind, r['token']])
         return ['cfg', callers, list(range(len(plan['apps']))), [[a, i] for a, i in enumerate(of_app)],
-                plan['processes'], locked]
+                plan['processes'], locked, [[i, n] for i, n in enumerate(fan_of_inst)], reset]
 
     def _events_sexp(self, plan, trace):
         evs = []
@@ -1212,6 +1730,10 @@ class C16(fw.Check):
                 k = self._canon(plan, ev)
                 if k[0] == 'value':
                     evs.append(['answer', ev['c'], ['value', k[1], k[2]]])
+                elif k[0] == 'mixed':
+                    evs.append(['answer', ev['c'], ['mixed', k[1], list(k[2])]])
+                elif k[:2] == ('error', 'invalid'):
+                    evs.append(['answer', ev['c'], ['error', ['invalid', k[2], k[3]]]])
                 elif k[0] == 'error':
                     evs.append(['answer', ev['c'], ['error', k[1]]])
                 else:
@@ -1223,11 +1745,11 @@ class C16(fw.Check):
     def _shape_ctl(plan, raw):
         """the controlled session's output in the form the common oracle / validation code reads"""
         for r in raw['rounds']:
-            if r.get('aborted'):
-                raise fw.MachineryError(f"controlled session {plan['sid']}: {r['aborted']}")
+            if r.get('aborted'):  # time-out: data; the rounds that were completed and the answers given still count
+                raw['timeout'] = f"controlled session: {r['aborted']} (flags {raw.get('flags')})"
         raw['events'] = [e for e in raw['log'] if e['ev'] in ('arrive', 'answer')]
-        raw['batches'] = [{'lost': r['lost'], 'alive': r['alive'], 'diag': r.get('diag'), 'wall': r['wall']}
-                          for r in raw['rounds']]
+        raw['batches'] = [{'lost': r['lost'], 'alive': r.get('alive'), 'diag': r.get('diag'), 'wall': r['wall']}
+                          for r in raw['rounds'] if not r.get('aborted')]
         return raw
 
     def _schedule_of(self, plan, trace):
@@ -1394,6 +1916,104 @@ class C16(fw.Check):
         stat['followed_by_model'] += 1
         stat['followed_same_answer_order'] += int(got == observed)
 
+    # ---- worker histories: tie of the per-worker part of the model (evidence, never an alarm) --------------------
+    def _worker_histories(self, plan, trace):
+        """what every worker process served, in order, as far as the session tells (controlled sessions: the gate
+        reports the pid of the worker computing a task; serial sessions: the answers carry it), replayed through the
+        model's `serveAll` with the reset discipline of the code that exists: the model must give the results the
+        tasks really had.  When it does not, the other reset policies are tried, for the notes."""
+        stat = self.extra.setdefault('worker_histories', {
+            'workers': 0, 'requests': 0, 'longest': 0, 'interrupted_then_next_on_same_warm_worker': 0,
+            'agree_with_model': 0, 'disagree': []})
+        of_app, _ = self._instances(plan)
+        fan_of_app, fan_of_inst, _ = self._fans(plan)
+        reqs = {r['c']: r for b in plan['batches'] for r in b['requests']}
+        answers = {e['c']: e for e in trace['events'] if e['ev'] == 'answer'}
+        order = []  # (pid, caller)
+        if plan['kind'] == 'ctl':
+            seen = set()
+            for e in trace['log']:
+                if e['ev'] == 'taken' and e['c'] not in seen:
+                    order.append((e['pid'], e['c']))
+                    seen.add(e['c'])
+                elif e['ev'] == 'answer' and e['c'] not in seen and self._pid_of(e) is not None:
+                    order.append((self._pid_of(e), e['c']))  # computed without ever reaching the head
+                    seen.add(e['c'])
+        else:
+            pids = {self._pid_of(e) for e in answers.values()} - {None}
+            for e in sorted(answers.values(), key=lambda e: e['seq']):
+                pid = self._pid_of(e)
+                if pid is None and len(pids) == 1 and plan['processes'] == 1 and reqs[e['c']]['fault'] == 'missingColumn':
+                    pid = next(iter(pids))  # refused at the head by the only worker there is
+                if pid is not None:
+                    order.append((pid, e['c']))
+        hist: dict = {}
+        for pid, c in order:
+            if reqs[c]['appidx'] < len(of_app):
+                hist.setdefault((pid, of_app[reqs[c]['appidx']]), []).append(c)
+        lines, keys = [], []
+        for (pid, inst), cs in sorted(hist.items()):
+            entries = []
+            for c in cs:
+                r = reqs[c]
+                kind = {'missingColumn': 'missingColumn', 'fatal': 'fatal'}.get(r['fault'], 'ok')
+                entries.append([['refused', r['branch']] if r['fault'] == 'refused' else kind, r['token']])
+            for pol in ('always', 'firstCallOnly', 'onSuccessOnly'):
+                lines.append(sexp.dumps(['worker', pol, inst, fan_of_inst[inst], entries]))
+            keys.append((pid, inst, cs))
+        if not lines:
+            return
+        res = [sexp.num(sexp.loads(a)) for a in self.model(lines)]
+        for n, (pid, inst, cs) in enumerate(keys):
+            stat['workers'] += 1
+            stat['requests'] += len(cs)
+            stat['longest'] = max(stat['longest'], len(cs))
+            for a, b in zip(cs, cs[1:]):
+                ra = reqs[a]
+                if cs.index(a) >= 1 and ra['fault'] == 'refused' and ra['branch'] + 1 < fan_of_inst[inst]:
+                    stat['interrupted_then_next_on_same_warm_worker'] += 1
+            observed = []
+            for c in cs:
+                k = self._canon(plan, answers[c]) if c in answers else ('odd', 'unanswered')
+                if reqs[c]['fault'] == 'badAccept':
+                    observed.append(None)  # the task's own result is not visible in the answer
+                elif k[0] == 'value':
+                    observed.append(['value', k[1], k[2]])
+                elif k[0] == 'mixed':
+                    observed.append(['mixed', k[1], list(k[2])])
+                elif k[:2] == ('error', 'invalid'):
+                    observed.append(['error', ['invalid', k[2], k[3]]])
+                elif k[0] == 'error':
+                    observed.append(['error', k[1]])
+                else:
+                    observed.append(['odd'])
+            verdicts = {}
+            for j, pol in enumerate(('always', 'firstCallOnly', 'onSuccessOnly')):
+                got = res[3 * n + j]
+                verdicts[pol] = got[0] == 'ok' and all(o is None or o == m for o, m in zip(observed, got[1]))
+            if verdicts['always']:
+                stat['agree_with_model'] += 1
+            else:
+                explained = [pol for pol, ok in verdicts.items() if ok]
+                note = (f"session {plan['sid']}: worker {pid} (instance {inst}, fan-out {fan_of_inst[inst]}) served callers "
+                        f"{cs[:12]}; the results are not those of the model with the reset of the code that exists"
+                        + (f"; they ARE those of the model with reset policy {explained}" if explained else ''))
+                if len(stat['disagree']) < 6:
+                    stat['disagree'].append(note)
+                if len([x for x in self.notes if x.startswith('worker history')]) < 3:
+                    self.notes.append('worker history: ' + note)
+
+    # ---- time-outs are data --------------------------------------------------------------------------------------
+    def _stall(self, plan, what, diag=None):
+        """something did not happen in time and nothing shows that the implementation lost it: recorded, not judged"""
+        rec = {'session': plan.get('sid'), 'kind': plan.get('kind'), 'what': what}
+        if diag:
+            rec['diagnostics'] = json.loads(json.dumps(diag, default=str)[:6000]) if len(json.dumps(diag, default=str)) <= 6000 \
+                else json.dumps(diag, default=str)[:6000]
+        self.extra.setdefault('timeouts', []).append(rec)
+        if len([n for n in self.notes if n.startswith('time-out')]) < 6:
+            self.notes.append(f"time-out (data, not judged): session {plan.get('sid')}: {what}")
+
     # ---- oracle (from the property text; independent of the model) -----------------------------------------------
     def _oracle(self, plan, trace):
         """-> list of (what, signature, detail)."""
@@ -1422,13 +2042,13 @@ class C16(fw.Check):
                 # environment (starved / wedged process) - a timeout, i.e. a machinery problem, not a verdict.
                 queues = [(k, v.get('tasks'), v.get('results')) for k, v in (diag.get('executors') or {}).items()]
                 if not queues or any(not isinstance(t, int) or not isinstance(r, int) for _, t, r in queues):
-                    raise fw.MachineryError(f"session {plan['sid']}: caller {c} unanswered after "
-                                            f"{plan['batches'][bi]['deadline_s']} s and the queues cannot be inspected: {diag}")
+                    self._stall(plan, f"caller {c} unanswered after {plan['batches'][bi]['deadline_s']} s and the queues "
+                                      f"cannot be inspected", diag)
+                    continue
                 if any(t or r for _, t, r in queues):
-                    raise fw.MachineryError(
-                        f"session {plan['sid']} stalled: caller {c} unanswered after {plan['batches'][bi]['deadline_s']} s "
-                        f"while tasks/results are still queued and every process is alive (timeout, not judged): "
-                        f"{json.dumps(diag)[:3000]}")
+                    self._stall(plan, f"caller {c} unanswered after {plan['batches'][bi]['deadline_s']} s while tasks / "
+                                      f"results are still queued and every process is alive", diag)
+                    continue
                 out.append((f'caller {c} ({reqs[c]["app"]}, fault={reqs[c]["fault"]}) was not answered within '
                             f'{plan["batches"][bi]["deadline_s"]} s: every executor and pool is alive, no task and no '
                             f'result is queued any more - the response is lost', 'lost-response',
@@ -1445,8 +2065,17 @@ class C16(fw.Check):
             want_inst = of_app[r['appidx']] if r['appidx'] < len(of_app) else None
             if r['fault'] in WANT:
                 want = WANT[r['fault']]
+            elif r['fault'] == 'refused':
+                want = ('error', 'invalid', r['token'], r['branch'])
             else:
                 want = ('value', want_inst, r['token'], r['rows'])
+            if 'status' in got[0]:  # through the REST gateway: the status code has to be the one of the caller's own outcome
+                code = {'value': 200, 'unsupported': 415, 'missingApp': 404, 'missingFeatures': 404, 'invalid': 400}[
+                    want[0] if want[0] == 'value' else want[1]]
+                if got[0]['status'] != code:
+                    out.append((f'caller {c} ({r["app"]}, fault={r["fault"]}) received HTTP status {got[0]["status"]} instead of '
+                                f'{code}', f'wrong-http-status:{code}->{got[0]["status"]}',
+                                {'c': c, 'got': got[0]['status'], 'want': code}))
             if k == want:
                 if k[0] == 'value' and got[0].get('enc') != r['accept']:
                     out.append((f'caller {c} accepts {r["accept"]} and was answered in {got[0].get("enc")} '
@@ -1454,7 +2083,17 @@ class C16(fw.Check):
                                 {'c': c, 'got': got[0].get('enc'), 'want': r['accept']}))
                 continue
             d = {'c': c, 'got': list(k), 'want': list(want)}
-            if k[0] == 'value' and k[2] != r['token']:
+            if k[0] == 'mixed':
+                others = sorted({by_token.get(t) for t in k[2] if t != r['token']}, key=str)
+                out.append((f'caller {c} (token {r["token"]}) received a response whose branches were computed on the '
+                            f'data of different requests: tokens per branch {list(k[2])} (callers {others} besides its own)',
+                            'crossed-payload', d))
+            elif k[:2] == ('error', 'invalid') and k[2] != r['token']:
+                other = by_token.get(k[2])
+                out.append((f'caller {c} (token {r["token"]}, {"healthy" if healthy else "fault=" + str(r["fault"])}) received '
+                            f'the failure of caller {other} (token {k[2]}, refused by branch {k[3]})',
+                            'crossed-failure', d))
+            elif k[0] == 'value' and k[2] != r['token']:
                 other = by_token.get(k[2])
                 out.append((f'caller {c} (token {r["token"]}) received the outcome of caller {other} (token {k[2]})',
                             'crossed-payload', d))
@@ -1485,8 +2124,10 @@ class C16(fw.Check):
 
     # ---- correspondence ------------------------------------------------------------------------------------------
     def _witness(self, plan, detail, trace=None):
-        keep = ('c', 'appidx', 'app', 'enc', 'accept', 'body', 'rows', 'token', 'delay', 'fault', 'arrival_ms', 'inst')
-        slim = {k: plan[k] for k in ('kind', 'projects', 'apps', 'processes', 'gate_list') if k in plan}
+        keep = ('c', 'appidx', 'app', 'enc', 'accept', 'body', 'rows', 'token', 'delay', 'fault', 'branch', 'arrival_ms',
+                'inst')
+        slim = {k: plan[k] for k in ('kind', 'projects', 'apps', 'processes', 'gate_list', 'pinned', 'coldfork', 'hang_s')
+                if k in plan}
         if 'race' in plan:
             slim['race'] = plan['race']
         slim['batches'] = [{'deadline_s': b['deadline_s'], 'requests': [{k: r[k] for k in keep if k in r}
@@ -1504,6 +2145,11 @@ class C16(fw.Check):
                                                if any(r['c'] == detail.get('c') for r in b['requests'])), None))
                 if bi is not None:  # rounds after the failing one are not needed
                     slim['rounds'], slim['batches'] = slim['rounds'][:bi + 1], slim['batches'][:bi + 1]
+        elif plan['kind'] == 'serial' and detail and 'c' in detail:
+            # one request at a time: what comes after the failing one is not needed
+            bi = next((i for i, b in enumerate(plan['batches']) if any(r['c'] == detail['c'] for r in b['requests'])), None)
+            if bi is not None:
+                slim['batches'] = slim['batches'][:bi + 1]
         return {'kind': 'session', 'plan': slim, 'detail': detail}
 
     def _judge(self, plan, trace, account=True):
@@ -1519,6 +2165,19 @@ class C16(fw.Check):
         findings = self._oracle(plan, trace)
         lost = [c for b in trace['batches'] for c in b['lost']]
         observed = sorted((e[1], e[2]) for e in events if e[0] == 'answer')
+        if plan.get('gateway'):  # the model's gateway mapping gives the status codes and instance headers observed
+            pairs = [(ev, e[2]) for ev, e in zip([x for x in sorted(trace['events'], key=lambda x: x['seq'])
+                                                  if x['ev'] == 'answer'], [e for e in events if e[0] == 'answer'])
+                     if e[2] != ['error', 'odd']]
+            if pairs:
+                got = sexp.num(sexp.loads(self.model([sexp.dumps(['http', [o for _, o in pairs]])])[0]))
+                for (ev, o), m in zip(pairs, got[1] if got[0] == 'ok' else []):
+                    served = m[1] if m[1] != 'none' else None
+                    inst = o[1] if o[0] in ('value', 'mixed') else None
+                    if ev.get('status') != m[0] or served != inst:
+                        self.diverge(f"REST gateway: caller {ev['c']} got status {ev.get('status')}, the model's mapping of its "
+                                     f"outcome {o} gives {m}", self._witness(plan, {'c': ev['c']}, trace), ev.get('status'), m)
+                        break
         if verdict[0] != 'ok':
             self.diverge(f"trace of session {plan['sid']} is not the projection of a model schedule: {verdict}",
                          self._witness(plan, None, trace), {'events': events[:200]}, verdict)
@@ -1537,7 +2196,17 @@ class C16(fw.Check):
             for ev in trace['events']:
                 if ev['ev'] == 'answer':
                     ans[ev['c']] = ev
-            for bi, b in enumerate(plan['batches']):
+            if plan['kind'] == 'serial':
+                reqs = [r for b in plan['batches'] for r in b['requests']]
+                letters = ''.join({None: 'H', 'refused': 'F', 'missingColumn': 'M'}.get(r['fault'], '?') for r in reqs)
+                shapes = [p.get('shape') for p in plan['projects']]
+                key = ('serial', plan['processes'], tuple(shapes),
+                       tuple((r['appidx'], r['fault'], r.get('branch'), r['rows'], r['enc']) for r in reqs))
+                self.case(key, f"serial pool={plan['processes']} fan={max(len(sh) for sh in shapes)} n={len(reqs)}",
+                          nontrivial='FH' in letters or 'FMH' in letters or 'FFH' in letters,
+                          sample={'session': plan['sid'], 'pool': plan['processes'], 'shapes': shapes, 'sequence': letters,
+                                  'answers': [self._canon(plan, ans[r['c']]) for r in reqs[:8] if r['c'] in ans]})
+            for bi, b in enumerate(plan['batches'] if plan['kind'] != 'serial' else []):
                 reqs = b['requests']
                 n = len(reqs)
                 nf = sum(1 for r in reqs if r['fault'])
@@ -1571,6 +2240,11 @@ class C16(fw.Check):
                 sizes = [64, 1, 32, 48, 2, 16][:nbatches]  # the extremes of the quantifier always occur
             plans.append(self._session(f'r{i}', nbatches, sizes=sizes, processes=[1, 2, 3, 4][i % 4] if i < 4 else None))
         plans.append(self._positions_session('pos0'))
+        # one worker's history: fail -> healthy, healthy -> fail -> healthy, ... one request at a time on forking pipelines
+        for i in range(self.n(3, 24)):
+            plans.append(self._serial_session(f'ser{i}', processes=1 if i == 0 else None))
+        for i in range(self.n(1, 8)):  # through the REST gateway
+            plans.append(self._gateway_session(f'gw{i}', self.n(2, 4)))
         if not self.quick:
             plans.append(self._positions_session('pos1'))
             plans.append(self._positions_session('pos2'))
@@ -1579,6 +2253,12 @@ class C16(fw.Check):
     def _ctl_plans(self):
         nsessions, nrounds, nrace = (6, 12, 2) if self.quick else (100, 30, 8)
         plans = [self._ctl_race_session(f'crace{i}') for i in range(nrace)]
+        # successive requests pinned onto one worker of a multi-worker pool by the schedule
+        plans += [self._ctl_pin_session(f'cpin{i}', processes=[2, 3][i % 2] if i < 2 else None)
+                  for i in range(self.n(2, 16))]
+        # a second executor created while the first one's thread receives a result
+        # (quick tier: the listed witness of finding C16-F2 is such a session and is replayed on every run anyway)
+        plans += [self._coldfork_session(f'cold{i}') for i in range(self.n(0, 4))]
         for i in range(nsessions):
             sizes = None
             if i == 0:  # the extremes of the quantifier always occur, on the largest pool
@@ -1592,27 +2272,54 @@ class C16(fw.Check):
             plans = self._plans()
             race = [self._race_session('race-same', True), self._race_session('race-two', False)]
             fatal = self._fatal_session('fatal')
-            everything = self._ctl_plans() + race + [fatal] + plans
+            everything = self._ctl_plans() + race + [fatal, self._after_stop_session('fatal-after')] + plans
             # 6 engines at a time (each up to 3 executors x (manager + pool + <=4 workers)); nothing in a session
             # depends on how fast it runs
-            traces = self._run_sessions(everything, parallel=self.n(6, 7))
-            walls, found = [], []
+            # the witnesses of the listed findings are sessions too: they run alongside (replay_finding picks the traces up)
+            listed = [e for e in fw._load_findings(self.ID) if (e.get('witness') or {}).get('kind') == 'session']
+            replays = [dict(e['witness']['plan'], sid=f"replay-{e['id']}") for e in listed]
+            traces = self._run_sessions(everything + replays, parallel=self.n(6, 7))
+            self._prefetched = {e['id']: (plan, trace) for e, plan, trace in zip(listed, replays, traces[len(everything):])}
+            traces = traces[:len(everything)]
+            walls, found, timed_out = [], [], 0
             for plan, trace in zip(everything, traces):
                 walls.append(trace['wall'])
+                if plan['kind'] == 'coldfork':
+                    self._record_coldfork(plan, trace)
+                    sig = self._deadlock_signature(trace)
+                    if sig:
+                        found.append((0, len(found), self._coldfork_what(plan), LOOP_BLOCKED, {'diagnosis': sig}, plan, trace))
+                        continue
+                if trace.get('timeout'):
+                    timed_out += 1
+                    self._stall(plan, trace['timeout'], {k: (trace[k][-3000:] if k == 'stderr_tail' else trace[k])
+                                                        for k in ('hung', 'stderr_tail', 'flags', 'flag_notes') if k in trace})
                 if plan['kind'] == 'fatal':
-                    self._record_fatal(plan, trace)
+                    if not trace.get('timeout'):
+                        self._record_fatal(plan, trace)
                     continue
-                for what, sig, detail in self._judge(plan, trace, account=True):
+                # a session that timed out is not compared with the model (its trace is not complete), but the answers
+                # it did give are behaviour of the real code: the oracle judges them
+                for what, sig, detail in (self._oracle(plan, trace) if trace.get('timeout')
+                                          else self._judge(plan, trace, account=True)):
                     # size of the witness = all requests up to and including the round of the failing caller
                     upto = next((i for i, b in enumerate(plan['batches'])
                                  if any(r['c'] == (detail or {}).get('c') for r in b['requests'])), len(plan['batches']) - 1)
                     size = sum(len(b['requests']) for b in plan['batches'][:upto + 1])
                     found.append((size + 1000 * (plan['kind'] != 'ctl'), len(found), what, sig, detail, plan, trace))
+                if trace.get('timeout'):
+                    continue
                 if plan['kind'] == 'race':
                     self._record_race(plan, trace)
                 if plan['kind'] == 'ctl':
                     self._follow(plan, trace)
+                if plan['kind'] in ('ctl', 'serial'):
+                    self._worker_histories(plan, trace)
+            if 2 * timed_out > len(everything):
+                raise fw.MachineryError(f'{timed_out} of {len(everything)} sessions timed out: too little was observed to '
+                                        f'answer (see evidence timeouts)')
             found = self._confirm_losses(found)
+            found = self._shrink_serial(found)
             # per root cause the framework reports the first violation: offer the smallest failing rounds first
             # (controlled ones before timed ones: their witness carries the schedule)
             for _, _, what, sig, detail, plan, trace in sorted(found, key=lambda f: f[:2]):
@@ -1629,6 +2336,69 @@ class C16(fw.Check):
             self._cleanup()
 
     LOSS = ('lost-response', 'pool-died')
+
+    def _shrink_serial(self, found):
+        """failing one-request-at-a-time sessions: which of the requests before the failing one are needed?  The last
+        k = 2, 3, 4 requests up to the failing one are run again as sessions of their own (real engine, fresh
+        registry); the shortest one that fails in the same way replaces the witness."""
+        done = set()
+        out = []
+        for f in sorted(found, key=lambda f: f[:2]):
+            size, n, what, sig, detail, plan, trace = f
+            if plan['kind'] != 'serial' or sig in done or not detail or 'c' not in detail or sig in self.LOSS:
+                out.append(f)
+                continue
+            done.add(sig)
+            bi = next(i for i, b in enumerate(plan['batches']) if any(r['c'] == detail['c'] for r in b['requests']))
+            cands = []
+            for k in (2, 3, 4):
+                if k <= bi:
+                    sub = dict(plan, sid=f"{plan['sid']}-last{k}", batches=plan['batches'][bi + 1 - k:bi + 1])
+                    apps = {r['appidx'] for b in sub['batches'] for r in b['requests']}
+                    if len(apps) == 1:  # one application is enough: the others are not even published
+                        sub = self._only_app(sub, apps.pop())
+                    cands.append(sub)
+            best = None
+            if cands:
+                try:
+                    for sub, tr in zip(cands, self._run_sessions(cands, parallel=3)):
+                        hit = [x for x in self._oracle(sub, tr) if x[1] == sig]
+                        if hit:
+                            best = (sum(len(b['requests']) for b in sub['batches']) + 1000, n, hit[0][0], sig, hit[0][2], sub, tr)
+                            break
+                except fw.MachineryError as err:
+                    self.notes.append(f'shrinking {plan["sid"]}: {str(err)[:200]}')
+            if best:
+                self.notes.append(f"witness of '{sig}' shrunk from {bi + 1} to {len(best[5]['batches'])} requests")
+            out.append(best or f)
+        return out
+
+    @staticmethod
+    def _only_app(plan, appidx):
+        """the same serial session over the one application its requests use"""
+        app = plan['apps'][appidx]
+        projects = [p for p in plan['projects'] if p['name'] == app['project']]
+        batches = [{'deadline_s': b['deadline_s'], 'requests': [dict(r, appidx=0, app='app0') for r in b['requests']]}
+                   for b in plan['batches']]
+        return dict(plan, apps=[dict(app, name='app0')], projects=projects, batches=batches)
+
+    @staticmethod
+    def _coldfork_what(plan):
+        cold = plan['batches'][1]['requests'][-1]
+        return (f"no caller is answered any more: the event loop is blocked for ever inside Executor.apply "
+                f"(manager-queue put) of the executor just created for {cold['app']} - its manager process was forked "
+                f"while another executor's thread was importing the package `forml` again (forml.setup._importer._unloaded "
+                f"drops `forml` from sys.modules for good when an optional project component does not exist), inherited "
+                f"the import lock in the locked state and dead-locks when it unpickles the first task")
+
+    def _record_coldfork(self, plan, trace):
+        info = trace.get('coldfork') or ((trace.get('hung') or {}).get('state') or {}).get('coldfork') or {}
+        self.extra.setdefault('coldfork', []).append({
+            'session': plan['sid'], 'pool': plan['processes'], 'finished': not trace.get('timeout'),
+            'cold_components_loaded_by_loop_thread': info.get('window'),
+            'forml_in_sys_modules_when_manager_is_forked': info.get('forml_loaded_at_fork'),
+            'another_thread_inside_import_of_forml': info.get('other_inside'), 'threads_importing_forml': info.get('importers'),
+            'deadlock_diagnosed': bool(self._deadlock_signature(trace))})
 
     def _confirm_losses(self, found):
         """An unanswered caller is the one verdict that rests on waiting.  Before it is reported the session is run
@@ -1660,9 +2430,8 @@ class C16(fw.Check):
                 unreproduced.append(f'session {sid}: {what}; not reproduced by 2 more runs of the same session; '
                                     f'diagnostics: {json.dumps((detail or {}).get("diag"))[:1500]}')
         kept = [f for f in found if f[3] not in self.LOSS or confirmed]
-        if unreproduced and not kept:
-            raise fw.MachineryError('unreproducible stall (timeout, not judged): ' + ' | '.join(unreproduced))
-        self.notes.extend('unreproduced stall: ' + u for u in unreproduced)
+        for u in unreproduced:  # a stall that does not come back is a time-out: data, not a verdict
+            self._stall({'sid': u.split(':')[0]}, 'unreproduced stall: ' + u[:2500])
         return kept
 
     def _record_race(self, plan, trace):
@@ -1678,6 +2447,20 @@ class C16(fw.Check):
     def _record_fatal(self, plan, trace):
         ans = {e['c']: self._canon(plan, e) for e in trace['events'] if e['ev'] == 'answer'}
         lost = [b['lost'] for b in trace['batches']]
+        if plan.get('after_stop'):
+            later = [('refused: ' + ans[c][1]) if c in ans and ans[c][0] == 'error' else ('answered: ' + str(ans[c])) if c in ans
+                     else 'accepted and never answered (executor thread still alive)' if any(c in l for l in lost)
+                     else 'not sent' for c in (2, 3)]
+            self.case(('after-stop', str(ans.get(1)), str(later)), 'after-stop (behaviour only)', nontrivial=False)
+            self.extra['after_stop_behaviour'] = {
+                'note': 'request 1 raises ValueError in the actor (outside the fault class) and stops the pool; requests 2, 3 are '
+                        'sent one after the other right after its answer: recorded, not judged (model: lateSubmit / exit, '
+                        'C16_late_refusal_partial / _counterexample)',
+                'fatal_request': list(ans.get(1, ('unanswered',))), 'later_requests': later}
+            if ans.get(0, ('?',))[0] != 'value':
+                self.violate(f'first healthy request of the after-stop session failed: {ans.get(0)}', self._witness(plan, None),
+                             'healthy-request-failed:pre-fatal')
+            return
         self.case(('fatal', str(ans), str(lost)), 'fatal (behaviour only)', nontrivial=False)
         self.extra['fatal_behaviour'] = {
             'note': 'request 2 raises ValueError in the actor (outside the fault class): recorded, not judged',
@@ -1720,6 +2503,8 @@ class C16(fw.Check):
                     plans.append(dict(p, sid=f'again{n}-{rep}'))
             for i in range(self.n(4, 16)):
                 plans.append(self._session(f'wide{i}', 4, faultrate=0.4))
+            for i in range(self.n(3, 12)):
+                plans.append(self._serial_session(f'wser{i}'))
             traces = self._run_sessions(plans, parallel=5)
             for plan, trace in zip(plans, traces):
                 for what, sig, detail in self._oracle(plan, trace):
@@ -1737,7 +2522,15 @@ class C16(fw.Check):
                 plan = dict(w['plan'], sid='replay')
             else:
                 return None
-            trace = self._run_session(plan)
+            if entry.get('id') in getattr(self, '_prefetched', {}):  # already run, alongside the correspondence sessions
+                plan, trace = self._prefetched.pop(entry['id'])
+            else:
+                trace = self._run_session(plan)
+            if plan.get('kind') == 'coldfork':
+                self._record_coldfork(plan, trace)
+                diag = self._deadlock_signature(trace)
+                if diag and entry.get('signature') in (None, LOOP_BLOCKED):
+                    return fw.Violation(self._coldfork_what(plan), w, LOOP_BLOCKED, {'diagnosis': diag})
             for what, sig, detail in self._oracle(plan, trace):
                 if entry.get('signature') in (None, sig):  # a listed entry is about one root cause only
                     return fw.Violation(what, w, sig, detail)
